@@ -6,7 +6,7 @@ aliases, the arity checks, the date / MDC argument handling and the error texts,
 `Chunk::Formatted { chunk: FormattedChunk, params }` is split by shape: formatters without
 children are `leaf`, the four formatters that hold `Vec<Chunk>` are `group`.
 -/
-namespace Log4rs.Pattern
+namespace Log4rs.Pattern.Parse
 
 /-- the `FormattedChunk` variants without children -/
 inductive Leaf where
@@ -143,4 +143,4 @@ def compileL : List Piece → List Chunk
   | p :: ps => compile p :: compileL ps
 end
 
-end Log4rs.Pattern
+end Log4rs.Pattern.Parse
